@@ -230,3 +230,24 @@ MANIFEST_TEXT["C08"] = {
     "technique": "stateful property-based testing (rapid), model-based oracle (leaf-set inclusion rules, positions, canonical proof)",
 }
 NOT_APPLICABLE[:] = [e for e in NOT_APPLICABLE if e["property_id"] not in CHECKS]
+
+CHECKS["C09"] = {
+    "test": "TestC09",
+    "quick": {"shards": 8, "checks": 1200},
+    "thorough": {"shards": 16, "checks": 5000},
+    "rule": "rapid-generated interleavings, on a non-full MapPollard started fresh (TotalRows from {0,1,2,3,4,5,7,63}) or from bare roots of a generated state "
+            "(NewMapPollardFromRoots), of: block (Verify(remember) of the deletions, Modify with generated Remember flags), Verify(remember) and Ingest of "
+            "arbitrary live sets with honest proofs, Prune of subsets of the cache, Undo. The harness tracks the expected remembered set. After EVERY "
+            "operation, with the model laid out in TotalRows coordinates: every stored (position,hash) is a true node hash (roots may be zero); the cache "
+            "holds exactly the remembered leaves at their true positions; required (roots, remembered leaves, canonical proof positions) is a subset of "
+            "stored, which is a subset of allowed (required plus path positions and their siblings); Prove of 6 probe sub-lists equals the canonical proof. Non-trivial: "
+            "a prune, ingest or undo after a block with deletions, with a non-empty cache at the end.",
+    "assumptions": COMMON_ASSUME + ["'positions on their proof paths' is read as: positions on the remembered leaves' paths to their roots and the siblings of those positions"],
+}
+MANIFEST_TEXT["C09"] = {
+    "level_text": "Exploration: stateful generation over the five operations with a sandwich invariant (required <= stored <= allowed, all hashes true) evaluated after every step.",
+    "design_ref": "DESIGN.md section 6 C09",
+    "level_note": TRUST,
+    "technique": "stateful property-based testing (rapid), model-based invariant after every operation",
+}
+NOT_APPLICABLE[:] = [e for e in NOT_APPLICABLE if e["property_id"] not in CHECKS]
